@@ -459,4 +459,6 @@ def run(ck, tier):
     from ..share import import_findings as _imp
     ck.rule('R16', 'the server keeps the context object it was given: `context or default` is sound only while ModbusServerContext defines neither __len__ nor __bool__ (shared with C10 R7)')
     _imp(ck, 'C10', 'R16', ('R7',), 'the server then answers requests for units it does not host (from a private default context) instead of staying silent / answering with a gateway exception')
+    from .c17 import r9_read_size_covers_an_adu
+    ck.guard(r9_read_size_covers_an_adu, ck, cx, 'R17')
     return cx.idx
